@@ -560,6 +560,8 @@ ConnBound(t) == t \in {"access", "call", "auth"}
 H_mreq(r) ==
     LET badV == IF r.bad THEN {V("C14", "request on malformed subject " \o r.subj, "")} ELSE {}
         known == r.c \in DOMAIN o.conns
+        \* C10: a {cid} tag of the client's resource id - in the name or in the query - reaches services expanded
+        tagV == IF "rawcid" \in DOMAIN r /\ r.rawcid THEN {V("C10", "request " \o r.subj \o " (query \"" \o r.q \o "\") carries an unexpanded {cid} tag", "")} ELSE {}
         cidV == IF ConnBound(r.t) /\ ~known THEN {V("C10", r.t \o " request " \o r.subj \o " carries a connection id of no connection", "")} ELSE {}
         \* finding KF-X: a re-check parked in a reset throttle when its subscription was disposed
         goneV == IF ConnBound(r.t) /\ known /\ o.conns[r.c].gone
@@ -622,7 +624,7 @@ H_mreq(r) ==
                       ELSE LET i0 == CHOOSE i \in open : \A j \in open : cl.pend[i].l <= cl.pend[j].l
                            IN SetConn(o3, r.c, [cl EXCEPT !.pend = Put(@, i0, [@[i0] EXCEPT !.fwd = TRUE])])
               ELSE o3
-    IN Res(o4, badV \cup cidV \cup goneV \cup tokV \cup subV \cup callV \cup tidV \cup qV)
+    IN Res(o4, badV \cup tagV \cup cidV \cup goneV \cup tokV \cup subV \cup callV \cup tidV \cup qV)
 
 -----------------------------------------------------------------------------
 Content(r) == IF r.kind = "m" THEN Model(r.val) ELSE Coll(r.list)
@@ -732,6 +734,10 @@ H_mevt(r) ==
 C01Viol(c, q) ==
     LET cl == o.conns[c]
         H == Held(cl.direct, cl.res)
+        snap == Get(q.subs, c, <<>>)
+        \* finding KF-H (as in C03EndViol): an unsubscribe was answered against an in-flight count, so the reference client
+        \* counts a direct subscription the gateway no longer has; what it holds through that root is no longer kept current
+        offH == \E r \in Roots(cl.direct) : (r \in DOMAIN cl.dispW \/ r \in cl.hUnsub) /\ Get(cl.nsub, r, 0) # (IF r \in DOMAIN snap THEN snap[r].direct ELSE 0)
     IN UNION {
         LET e == cl.res[rid]
             k == KeyOf(cl, rid)
@@ -739,7 +745,8 @@ C01Viol(c, q) ==
             a == AnnOf(o.ann, nk)
             \* KF-U, second part: a resource that was marked unsent (rightly or not) is re-sent with the snapshot taken when
             \* it was loaded - the subscription's copy is not updated by events
-            kf == IF cl.taintU \/ rid \in cl.unsent THEN "KF-U" ELSE IF cl.taintG THEN "KF-G" ELSE IF cl.taintW THEN "KF-W" ELSE ""
+            kf == IF cl.taintU \/ rid \in cl.unsent THEN "KF-U" ELSE IF cl.taintG THEN "KF-G" ELSE IF cl.taintW THEN "KF-W"
+                  ELSE IF offH /\ rid \notin DOMAIN snap THEN "KF-H" ELSE ""
         IN IF e.k \notin {"m", "c"} \/ rid \in cl.exempt THEN {}
            ELSE IF a.st = "del" THEN {}
            ELSE IF a.st = "un" THEN {V("C01", "client " \o c \o " holds " \o rid \o " but the gateway no longer tracks it (no subscription / never announced)", kf)}
@@ -891,6 +898,10 @@ Handle(r) ==
     CASE r.e = "reset" -> Res(InitO(r.trace), {})
       [] r.e = "stop" -> H_stop(r)
       [] r.e = "stopped" -> H_stopped(r)
+      \* a client that had stopped reading when the service stopped: its socket must have been closed all the same
+      [] r.e = "stallprobe" ->
+            IF r.open THEN Res(o, {V("C20", "the socket of client " \o r.c \o ", which was not reading, is still open after the service stopped", "")})
+            ELSE IF r.c \in DOMAIN o.conns THEN Res(SetConn(o, r.c, [o.conns[r.c] EXCEPT !.alive = FALSE]), {}) ELSE Res(o, {})
       [] r.e = "stophang" -> Res(o, {V("C20", "Stop did not complete within its bounded timeouts", "")})
       [] r.e = "started" -> Res([o EXCEPT !.down = FALSE], {})
       [] r.e = "startfail" -> Res(o, {V("C20", "Start after Stop failed: " \o r.err, "")})
